@@ -35,3 +35,15 @@ fn(T + '._initialize_boundary', properties=['C17'], params={'boundary_mode': 'in
             'all(result[0][j] == 0 and 0 < result[1][j] and result[1][j] < 1 for j in range(q3 + 1, n))',
             'all(result[1][j] > result[1][j+1] for j in range(q3, n - 1))',
             ])
+
+# circle target: every border vertex is placed on the unit circle (A10: rect(1, phi) = (cos phi, sin phi), sin^2 + cos^2 = 1).
+# Distinctness of the positions (strict monotonicity of the angle 2 pi i / n on [0, 2 pi)) is a fact about cos/sin that the
+# assumed trigonometry (A10) does not contain: bounded stand-in.
+fn(T + '._initialize_boundary#circle', of=T + '._initialize_boundary', properties=['C17'], params={'boundary_mode': 'int'}, cases=[{'boundary_mode': 0}],
+   returns='tuple[list[real],list[real]]',
+   requires=['len(self.mesh.boundary_vertices) >= 3'],
+   locals={'U': 'list[real]', 'V': 'list[real]'},
+   lets={'n': 'len(self.mesh.boundary_vertices)'},
+   loops={0: loop(invariant=['len(U) == n and len(V) == n', 'all(U[j]*U[j] + V[j]*V[j] == 1 for j in range(it0))'])},
+   ensures=['len(result[0]) == n and len(result[1]) == n',
+            'all(result[0][j]*result[0][j] + result[1][j]*result[1][j] == 1 for j in range(n))'])
